@@ -783,6 +783,36 @@ except ImportError:
 def f(a):
     return h(a)
 """),
+    ("def_in_handler_and_case", ["helper", "Fallback.m", "pick"], """\
+try:
+    import _c08_no_such_module as fast
+except ImportError:
+    def helper(a):
+        if a:
+            return 1
+        return 0
+
+    class Fallback:
+        def m(self, a):
+            if a:
+                return 2
+            return 3
+
+KIND = 1
+match KIND:
+    case 1:
+        def pick(a):
+            if a:
+                return "one"
+            return "other"
+    case _:
+        def pick2(a):
+            return None
+
+
+def f(a):
+    return helper(a), pick(a)
+"""),
     ("with_nested", ["f"], """\
 import contextlib
 
